@@ -373,6 +373,9 @@ func (g *Gen) Inbound(perturb bool) *ct.MsgReceiveMessage {
 			m.Version = uint32(1 + r.Intn(3))
 		case 2:
 			m.Caller = ref.Pad32(AcctBytes(r.Intn(NAccounts)))
+		case 9:
+			m.Caller = make([]byte, 32)
+			m.Caller[r.Intn(12)] = byte(1 + r.Intn(255))
 		case 3:
 			if len(m.Body) == 132 {
 				m.Body[3] = 1 // burn body version
@@ -417,6 +420,9 @@ func (g *Gen) Next() Tx {
 	m := e.M
 	perturb := r.Intn(3) == 0
 	var msgs []sdk.Msg
+	if r.Intn(25) == 0 {
+		return g.RollbackProbe()
+	}
 	nm := 1
 	if r.Intn(12) == 0 {
 		nm = 2 + r.Intn(2)
@@ -688,4 +694,48 @@ func sortedStrings(m map[string]bool) []string {
 	}
 	sort.Strings(out)
 	return out
+}
+
+// RollbackProbe builds a transaction whose first message is a state-changing action by the role holder
+// (it would succeed alone), whose second message reads the state just written, and whose last message
+// fails - so the whole transaction is rolled back. Anything the first message leaked outside the store
+// (process memory) shows up in later transactions.
+func (g *Gen) RollbackProbe() Tx {
+	r, m := g.R, g.E.M
+	var first sdk.Msg
+	switch r.Intn(8) {
+	case 0:
+		first = &ct.MsgUpdatePauser{From: m.Owner, NewPauser: g.acct()}
+	case 1:
+		first = &ct.MsgUpdateAttesterManager{From: m.Owner, NewAttesterManager: g.acct()}
+	case 2:
+		first = &ct.MsgUpdateTokenController{From: m.Owner, NewTokenController: g.acct()}
+	case 3:
+		first = &ct.MsgUpdateOwner{From: m.Owner, NewOwner: g.acct()}
+	case 4:
+		first = &ct.MsgEnableAttester{From: m.AM, Attester: freshAttester(m, r.Intn(8))}
+	case 5:
+		first = &ct.MsgDisableAttester{From: m.AM, Attester: firstAttester(m)}
+	case 6:
+		if m.PausedSR {
+			first = &ct.MsgUnpauseSendingAndReceivingMessages{From: m.Pauser}
+		} else {
+			first = &ct.MsgPauseSendingAndReceivingMessages{From: m.Pauser}
+		}
+	default:
+		first = &ct.MsgUpdateSignatureThreshold{From: m.AM, Amount: uint32(1 + r.Intn(len(m.Attesters)+1))}
+	}
+	var reader sdk.Msg
+	switch r.Intn(4) {
+	case 0:
+		reader = g.Inbound(false)
+	case 1:
+		reader = &ct.MsgUpdateSignatureThreshold{From: m.AM, Amount: uint32(1 + r.Intn(len(m.Attesters)+1))}
+	case 2:
+		reader = &ct.MsgSendMessage{From: g.acct(), DestinationDomain: 0, Recipient: g.rand32(), MessageBody: []byte("probe")}
+	default:
+		reader = &ct.MsgPauseBurningAndMinting{From: m.Pauser}
+	}
+	failing := &ct.MsgRemoveRemoteTokenMessenger{From: "not-the-owner", DomainId: 0}
+	return Tx{Msgs: []sdk.Msg{first, reader, failing}, Note: "rollback probe"}
 }
